@@ -16,9 +16,14 @@ vars == <<prog, tcmd, tall, tfault, phase, i, j, outcome, nexec, files, executed
 Pending == <<"pending", "", 0, "", "">>
 Raise(cls, idx, pn, what) == outcome' = <<"err", cls, idx, pn, what>> /\ phase' = "done"
 
-Init == /\ tcmd \in DeclNames /\ tall \in BOOLEAN /\ tfault \in FaultsOf(D(tcmd)) /\ (tfault[1] = "pair" => ~tall)
+InitWith(FS(_)) ==
+        /\ tcmd \in DeclNames /\ tall \in BOOLEAN /\ tfault \in FS(D(tcmd)) /\ (tfault[1] \in {"pair", "cycle", "selfloop"} => ~tall)
         /\ \E pos \in {"first", "last"} : prog = Build(tcmd, tall, tfault, pos)
         /\ phase = "load" /\ i = 1 /\ j = 1 /\ outcome = Pending /\ nexec = 0 /\ files = {} /\ executed = {}
+
+Init == InitWith(FaultsOf)
+JustCycles(d) == CycleFaultsOf(d) \cup {<<"none", "", <<>>>>}
+InitCycles == InitWith(JustCycles)          \* C14's share: only the programs with a reference cycle (and the valid models)
 
 \* Program.from_source: one command at a time, in file order
 LoadCmd ==
@@ -54,9 +59,7 @@ PrepassDone == /\ phase = "prepass" /\ i > Len(prog) /\ phase' = "exec"
                /\ UNCHANGED <<prog, tcmd, tall, tfault, i, j, outcome, nexec, files, executed>>
 
 \* execution: any command whose referenced results are executed; Command.run validates its own arguments first
-RECURSIVE RefsOf(_)
-RefsOf(v) == IF v[1] = "ref" THEN {v[2]} ELSE IF v[1] = "list" THEN UNION {RefsOf(v[2][k]) : k \in 1..Len(v[2])} ELSE {}
-DepsOf(c) == UNION {RefsOf(Args(c)[k][2]) : k \in 1..Len(Args(c))} \cap Results(prog)
+DepsOf(c) == DepNames(prog, c)
 Writes(c) == CName(c) = "EEMSWrite" \/ (CName(c) = "PrintVars" /\ "OutFileName" \in ArgNames(c))
 Ready(k) == k \notin executed /\ \A dn \in DepsOf(prog[k]) : \E m \in executed : Res(prog[m]) = dn
 Exec(k) ==
@@ -69,23 +72,31 @@ Exec(k) ==
             /\ files' = IF Writes(prog[k]) THEN files \cup {Res(prog[k])} ELSE files
             /\ UNCHANGED <<outcome, phase>>
     /\ UNCHANGED <<prog, tcmd, tall, tfault, i, j>>
+\* nothing can run any more although commands are left: they wait for one another (the engine reports the cycle while it unwinds)
+ExecStuck == /\ phase = "exec" /\ executed # 1..Len(prog) /\ \A k \in 1..Len(prog) : ~Ready(k)
+             /\ Raise("RecursiveModelStructure", 0, "", "") /\ UNCHANGED <<prog, tcmd, tall, tfault, i, j, nexec, files, executed>>
 ExecDone == /\ phase = "exec" /\ executed = 1..Len(prog) /\ outcome' = <<"ok", "", 0, "", "">> /\ phase' = "done"
             /\ UNCHANGED <<prog, tcmd, tall, tfault, i, j, nexec, files, executed>>
 \* a command that can never run (it references something that failed to load) does not occur: load errors stop earlier
 
-Next == LoadCmd \/ LoadDone \/ PrepassClean \/ PrepassDone \/ (\E k \in 1..Len(prog) : Exec(k)) \/ ExecDone
+Next == LoadCmd \/ LoadDone \/ PrepassClean \/ PrepassDone \/ (\E k \in 1..Len(prog) : Exec(k)) \/ ExecStuck \/ ExecDone
 Spec == Init /\ [][Next]_vars
 
 \* ---------- properties
 Matches(f) == /\ \E m \in 1..Len(f[1]) : f[1][m] = outcome[2]
               /\ f[2] = outcome[3] /\ f[3] = outcome[4] /\ (f[4] = outcome[5] \/ f[4] = "?")
-AcceptIffWellFormed == phase = "done" => ((outcome[1] = "ok") <=> WellFormed(prog))                          \* C12
-ErrorIsAFault == outcome[1] = "err" => \E f \in Faults(prog) : Matches(f)                                      \* C12
-RejectBeforeEffects == outcome[1] = "err" => nexec = 0 /\ files = {}                                           \* C12
+IsCycleError == outcome[1] = "err" /\ outcome[2] = "RecursiveModelStructure"
+AcceptIffWellFormed == phase = "done" => ((outcome[1] = "ok") <=> (WellFormed(prog) /\ ~Cyclic(prog)))            \* C12 (and C14: a cyclic model is not accepted)
+ErrorIsAFault == outcome[1] = "err" => (\E f \in Faults(prog) : Matches(f)) \/ (IsCycleError /\ WellFormed(prog) /\ Cyclic(prog))   \* C12, C14
+RejectBeforeEffects == (outcome[1] = "err" /\ ~IsCycleError) => nexec = 0 /\ files = {}                             \* C12 (a cycle is found while running)
 EscapeTyped == outcome[1] = "err" => outcome[2] \in MPilotErrors                                               \* C13
+CyclicRejected == (phase = "done" /\ Cyclic(prog) /\ WellFormed(prog)) => IsCycleError                             \* C14
 \* the builder and the declarative definition agree: exactly the injected fault
-\* (an undeclared argument is no fault for a command that allows extra inputs)
+\* (an undeclared argument is no fault for a command that allows extra inputs; a cycle is no ill-formedness)
+IsCycleFault == tfault[1] \in {"cycle", "selfloop"}
 BuilderSound == /\ (tfault[1] = "none" => WellFormed(prog))
                 /\ (tfault[1] = "undeclared" /\ AllowExtra(D(tcmd)) => WellFormed(prog))
-                /\ (tfault[1] \notin {"none", "pair"} /\ ~(tfault[1] = "undeclared" /\ AllowExtra(D(tcmd))) => ~WellFormed(prog))
+                /\ (IsCycleFault => WellFormed(prog) /\ Cyclic(prog))
+                /\ (~IsCycleFault /\ tfault[1] # "dup" => ~Cyclic(prog))        \* (a duplicated result name may make a command refer to "itself": rejected at load time)
+                /\ (tfault[1] \notin {"none", "pair"} /\ ~IsCycleFault /\ ~(tfault[1] = "undeclared" /\ AllowExtra(D(tcmd))) => ~WellFormed(prog))
 =============================================================================
